@@ -138,7 +138,7 @@ pub fn checks(tier: Tier) -> Vec<Check> {
         Check {
             name: "C03.histories".into(),
             strategy: (registers(), prop_oneof![3 => program(12), 1 => program(40)]).prop_map(move |(r, p)| Req::new(hist_op, vec![r, p])).boxed(),
-            cases: tier.scale(3_000, 30),
+            cases: tier.scale(6_000, 20),
             exec: Box::new(crate::ops::exec),
             oracle: oracle(),
             classify: Box::new(history_labels),
